@@ -11,7 +11,9 @@ is lost, swapped or stored under another name on that way:
   in the field that carries the setter's name;
 * `start_tracer_wiring`: every call of the chain hands `cfg.<name>` to the setter `<name>`, with the
   documented exceptions listed in `exceptions`;
-* `start_tracer_complete`: every setter is called exactly once.
+* `start_tracer_complete`: every setter is called exactly once;
+* `config_lookup_order`, `firstFound_spec`: the default configuration file is the first that exists in the documented
+  order of locations.
 -/
 namespace TV.Props.Wiring
 open TV.Gen.Wiring
@@ -41,6 +43,62 @@ theorem start_tracer_shape :
     (startTracerChain.map (·.1)).getLast? = some "spawn" ∧
     ∀ c ∈ startTracerChain, c.1 ∈ ["new", "build", "spawn"] ∨ c.1 ∈ builderSetters.map (·.1) := by decide
 
+/-! ## where the configuration file comes from
+
+`read_default_config_file` / `read_files` are chains `if let Some(file) = lookup? { Ok(Some(file)) } else …` (the
+translator checks that every lookup is such an arm): the first file that exists is used.  `configLookupDirs` /
+`configLookupNames` are the lookups in textual order, local aliases substituted. -/
+
+/-- the chain: the first lookup that finds a file -/
+def firstFound {α : Type} : List (Option α) → Option α
+  | [] => none
+  | some a :: _ => some a
+  | none :: rest => firstFound rest
+
+/-- the file used is the one at the first position where one exists -/
+theorem firstFound_spec {α : Type} (l : List (Option α)) (a : α) :
+    firstFound l = some a ↔ ∃ i : Nat, l[i]? = some (some a) ∧ ∀ j : Nat, j < i → l[j]? = some none := by
+  induction l with
+  | nil => simp [firstFound]
+  | cons x xs ih =>
+    cases x with
+    | some b =>
+      simp only [firstFound, Option.some.injEq]
+      constructor
+      · rintro rfl; exact ⟨0, by simp, by omega⟩
+      · rintro ⟨i, hi, hj⟩
+        cases i with
+        | zero => simpa using hi
+        | succ i => have := hj 0 (by omega); simp at this
+    | none =>
+      simp only [firstFound, ih]
+      constructor
+      · rintro ⟨i, hi, hj⟩
+        refine ⟨i + 1, by simpa using hi, fun j hjlt => ?_⟩
+        cases j with
+        | zero => simp
+        | succ j => simpa using hj j (by omega)
+      · rintro ⟨i, hi, hj⟩
+        cases i with
+        | zero => simp at hi
+        | succ i => exact ⟨i, by simpa using hi, fun j hjlt => by simpa using hj (j + 1) (by omega)⟩
+
+theorem firstFound_none {α : Type} (l : List (Option α)) : firstFound l = none ↔ ∀ x ∈ l, x = none := by
+  induction l with
+  | nil => simp [firstFound]
+  | cons x xs ih => cases x <;> simp [firstFound, ih]
+
+/-- the documented order (file.rs doc comment, docs/reference/configuration.md): the current directory, the home
+directory, the XDG configuration directory, its `trippy` sub-directory; in each `trippy.toml` before `.trippy.toml` -/
+theorem config_lookup_order :
+    configLookupDirs = ["\"\"", "base :: choose_base_strategy ( ) ? . home_dir ( )",
+      "base :: choose_base_strategy ( ) ? . config_dir ( )",
+      "base :: choose_base_strategy ( ) ? . config_dir ( ) . join ( \"trippy\" )"] ∧
+    configLookupNames = ["trippy.toml", ".trippy.toml"] := by decide
+
+#print axioms firstFound_spec
+#print axioms firstFound_none
+#print axioms config_lookup_order
 #print axioms setters_store_their_own_field
 #print axioms setters_distinct
 #print axioms start_tracer_wiring
